@@ -233,6 +233,7 @@ pub fn gen_case(seed: u64, kind: &'static str, profile: Profile, len: usize, whi
             out.push("snap".into());
         }
         out.push("iter".into());
+        out.push("drop".into());
         return out;
     }
     if profile == Profile::Batch {
@@ -279,6 +280,7 @@ pub fn gen_case(seed: u64, kind: &'static str, profile: Profile, len: usize, whi
             }
         }
         out.push("iter".into());
+        out.push("drop".into());
         return out;
     }
     for _ in 0..len {
@@ -349,10 +351,12 @@ pub fn gen_case(seed: u64, kind: &'static str, profile: Profile, len: usize, whi
             }
         }
     }
-    if sync {
+    if sync && rng.chance(2, 3) {
         out.push("sync".into());
         out.push("snap".into());
     }
     out.push("iter".into());
+    // drop the cache, two times out of three with operations still queued
+    out.push("drop".into());
     out
 }
